@@ -37,11 +37,31 @@ CLAIMS = {
              "Tie to the code: every generated stream is placed at the 128 residues 0..127 of an aligned arena and eps-copy deserialized by the real crate (references checked for native alignment by the harness) and by the model; the direct oracle recomputes the requirement from the block units recorded by serialize_with_schema.",
         note=TRUST + "Known finding D10 (non power-of-two unit) excluded by units_pow2.",
         tech="Coq proof: value-or-AlignmentError simulation parametrised by the base address + differential correspondence check", ref="DESIGN.md section 7 C12"),
+    "C13": dict(
+        text="Theorems (Coq), quantified over EVERY writer state machine (any answers to write: short count, Ok(0), Interrupted, error; any answer to flush): the bytes accepted are a prefix of the fault-free stream; success is reported only with the exact count when exactly the fault-free bytes and the flush were accepted, any other run gives WriteError (never a panic, never success after a failure); writers that only split or retry receive exactly the fault-free bytes; the writer failing after k bytes receives exactly the first k. The borrowed buffer of a slice reference is never released by the serializer (events carry no release on any path; fix 267d146). "
+             "Tie to the code: for every generated value the real crate is run against a writer failing after every byte count k in [0,len], a failing flush, short writes with interrupts, Ok(0), BufWriter<File> and /dev/full, through serialize AND serialize_with_schema; the same oracles run on the model; the same object is serialized again afterwards (source intact).",
+        note=TRUST + "std::io::Write::write_all's loop is modelled as documented (std is trusted). Heap integrity is observed (a double free aborts the harness and is reported), not proved.",
+        tech="Coq proof by induction over the event list with the writer oracle universally quantified + differential correspondence check with fault injection", ref="DESIGN.md section 7 C13"),
+    "C14": dict(
+        text="Theorems (Coq): read_exact -- the only way full-copy deserialization touches its reader -- over a reader delivering the stream in arbitrary fragments with arbitrary Interrupted interleavings returns exactly what read_exact on the stream as one slice returns (same bytes, same position, ReadError at the end of data; never a panic); with a reader failing after k bytes every read needing a byte at or beyond k gives ReadError; a stream that ends before the value is complete yields ReadError for every type (C11's strictness). "
+             "Tie to the code: deserialize_full of the real crate over readers implementing only read with 1-byte, 3-byte, prime-sized and mixed fragments, interleaved Interrupted, and failing after every byte count k in [0,len), for every generated value; results must equal the unfragmented result / be ReadError.",
+        note=TRUST + "PARTIAL: the whole-value statement is the composition of the read_exact-level theorem with the list-level model of deser_full (which uses read_exact only); 'without corrupting memory through partially built values' is not expressible in a value-level model and is observed only (a crash of the harness is reported as a violation; seeded mutant C14-a is caught this way).",
+        tech="Coq proof by induction on the read loop for every fragmentation policy + differential correspondence check with fault injection", ref="DESIGN.md section 7 C14"),
     "C15": dict(
         text="Theorems (Coq): for Option, Bound, ControlFlow every one-byte tag value that no variant writes, and for derived enums every pointer-width value >= the number of variants, is rejected with InvalidTag carrying exactly that value, in both modes, at every position and whatever follows; the written tag selects exactly its variant's decoder and every value of every sum type round-trips (C15_written_tags_decode). "
              "Tie to the code: at every tag position of every generated stream (positions read from serialize_with_schema) all foreign one-byte values / boundary usize values are substituted and both deserializers of the real crate and of the model are run and compared.",
         note=TRUST + "Two defects of this property were found on the pinned tree and fixed in /repo (ControlFlow tags da137be; Option eps payload fd5c726).",
         tech="Coq proof by computation on the tag + induction over variants + differential correspondence check", ref="DESIGN.md section 7 C15"),
+    "C16": dict(
+        text="Theorems (Coq): for every type in which slice references and iterator wrappers occur anywhere (standalone, type-parameter fields of structures, inside options...), every well-typed value with honest iterators and every padding content, the stream (header included) and the outcome equal those of the value with vectors in their place (C16_stream_equals_vector_stream), hence it deserializes as the vector type to the items; an iterator announcing k and producing n <> k items yields IteratorLengthMismatch{actual n, expected k} for every pair. "
+             "Tie to the code: every generated case holding &[T] or SerIter (zero-copy and deep elements, nested under generic structs/enums, honest and lying) has a generated vector twin compiled in the same crate; the two streams produced by the real crate are compared byte for byte (padding masked) and with the model.",
+        note=TRUST + "The type-name string in the header is rustc's (type_name of the SerType): equal for twin types in the same crate.",
+        tech="Coq proof: byte-equivalence of writers closed under the combinators, mutual induction over the type grammar + differential correspondence check on twins", ref="DESIGN.md section 7 C16"),
+    "C18": dict(
+        text="Theorems (Coq) about the rows computed from the writer events: rows are in pre-order (offsets never decrease; the vector is the pre-order traversal of the row tree); every row lies within the stream; for the stream of ANY value of ANY type the top-level rows tile the whole stream and the children of every composite row tile it without gaps or overlaps; padding rows cover only zero bytes; zero-copy blocks start at multiples of their recorded alignment; rendering (to_csv, debug) never indexes outside the data. "
+             "Tie to the code: rows (field path, offset, size, alignment), flush count and render outcomes of serialize_with_schema of the real crate are compared with the model's on every case; bytes are compared with plain serialization of the same object; the direct oracle re-checks pre-order, bounds, tiling, zero padding and block alignment on the implementation's rows.",
+        note=TRUST + "'Same bytes as plain serialization' holds by construction in the model (rows are a function of the same events) and is observed on the implementation. The ty strings of rows are rustc's type names and are not compared.",
+        tech="Coq proof: tiling invariant of writers closed under the combinators, mutual induction over the type grammar + differential correspondence check", ref="DESIGN.md section 7 C18"),
     "C19": dict(
         text="Refinement theorem in Coq: for every unit size and every feasible history of write/read/seek/set_position, the model of AlignedCursor returns the same results and has the same position, length and contents after every operation as the model of std::io::Cursor<Vec<u8>>, plus the storage invariant (whole units, zero beyond len). Both models are tied to the code on every run by executing ~8k (quick) / ~150k (thorough) histories on the real AlignedCursor<T>, the real std cursor and the extracted models.",
         note=TRUST + "Modelled, not verified: Rust's Vec<T> (resize zero-fills with T::default(), storage address aligned to T: observed on every history, not proved). Feasible histories only (no write ending beyond isize::MAX).",
